@@ -815,6 +815,15 @@ fn run_restart(c: &Case, ops: &[Op], intents: &[IntentSpec], ticketed: bool) -> 
     for (i, e) in envs.iter().enumerate() {
         by_id.entry(e.ingress_id()).or_insert(&intents[i]);
     }
+    // recovery is idempotent: replaying both restore calls over the same retained material (a host that enables its WAL
+    // again) must leave a runtime that still de-duplicates what the first recovery de-duplicated
+    let mut rb2 = rb.clone();
+    let replayed = rb2.restore_witnessed_submission_persistence(match rt.witnessed_submission_persistence_snapshot() {
+        Ok(s) => s,
+        Err(_) => return o,
+    })
+    .is_ok()
+        && rb2.restore_causal_runtime_history(&prov, &entries, &correlations).is_ok();
     for (k, id) in &committed {
         let spec = by_id[id];
         let env = IngressEnvelope::local_intent_with_causal_parents(
@@ -824,7 +833,13 @@ fn run_restart(c: &Case, ops: &[Op], intents: &[IntentSpec], ticketed: bool) -> 
             spec.parents.clone(),
         );
         match rb.clone().ingest(env.clone()) {
-            Ok(IngressDisposition::Duplicate { .. }) => {}
+            Ok(IngressDisposition::Duplicate { .. }) => {
+                if replayed {
+                    if let Ok(IngressDisposition::Accepted { .. }) = rb2.clone().ingest(env.clone()) {
+                        o.flags.push(format!("restart:retry-accepted-after-replayed-recovery{tag}"));
+                    }
+                }
+            }
             Ok(IngressDisposition::Accepted { .. }) => o.flags.push(format!("restart:retry-after-restart-accepted{tag}")),
             Err(_) => {}
         }
